@@ -3,7 +3,7 @@ import Goat.Model.Rand
 /-
 Driver ops of C19.
 
-  c19.hist  <variant: [dirSwap ecdhJwe ecdhDirectDraw gcmkwCheck]> <ops: [op …]>
+  c19.hist  <ops: [op …]>
         → [ [step …], [draw …] ]   step = [outcome, posAfter, nDrawsAfter]; draw = [kind, pos, bytes]
   c19.gcmIVAt <mask> <counter> <pos>     one GenerateIV on an instance with the given state
         → [outcome([iv, counter', mask']), posAfter]
@@ -17,10 +17,6 @@ op encodings:  ["newGcm" enc] ["gcmCEK" i] ["gcmIV" i] ["cbcCEK" enc] ["cbcIV" e
 -/
 namespace Drive.C19
 open Model.Rand
-
-def decVariant (w : Wire) : Variant :=
-  let a := w.asArr
-  ⟨(arg a 0).asBool, (arg a 1).asBool, (arg a 2).asBool, (arg a 3).asBool⟩
 
 def decHdr (w : Wire) : Hdr :=
   let a := w.asArr
@@ -76,9 +72,8 @@ def encOut : Outcome (List Item) → Wire
 def encDraw (d : Draw) : Wire := .arr [.str d.kind.name, .int d.pos, .bytes d.bytes]
 
 def hist (a : List Wire) : Prog Wire :=
-  let v := decVariant (arg a 0)
-  let ops := (arg a 1).asArr.map decOp
-  Prog.bind (histProg v St.init ops) fun rs =>
+  let ops := (arg a 0).asArr.map decOp
+  Prog.bind (histProg St.init ops) fun rs =>
     let steps := rs.map fun (_, out, s) => Wire.arr [encOut out, .int s.pos, .int s.log.length]
     let log := match rs.getLast? with
       | some (_, _, s) => s.log
